@@ -449,7 +449,7 @@ Lemma arr_fold_nf {St R} bs (step : St -> je -> list N -> res (St + R)) fin :
   nf (arr_fold bs step fin fuel idx len joff voff s).
 Proof.
   intros Hfin Hstep. induction fuel as [|f IH]; intros idx len joff voff s H1 H2 H3; [lia|].
-  cbn [arr_fold]. destruct (len <=? idx) eqn:E; [apply Hfin|]. apply N.leb_gt in E.
+  cbn [arr_fold]. unfold ITER_ARR_JSTEP. destruct (len <=? idx) eqn:E; [apply Hfin|]. apply N.leb_gt in E.
   destruct (read_u32 bs joff) as [w|] eqn:Rw; [|apply Hfin].
   destruct (slice bs voff (je_len w)) as [p|] eqn:Sp; [|apply nf_panic].
   pose proof (read_u32_bound _ _ _ Rw) as Bw.
@@ -462,7 +462,7 @@ Lemma iterate_array_nf {St R} bs hdr (step : St -> je -> list N -> res (St + R))
   (forall s, nf (fin s)) -> (forall s j p, lenN p + 8 <= lenN bs -> nf (step s j p)) ->
   nf (iterate_array bs hdr step fin s).
 Proof.
-  intros Hfin Hstep. unfold iterate_array. apply (arr_fold_nf bs step fin Hfin Hstep); unfold lenN; lia.
+  intros Hfin Hstep. unfold iterate_array, ITER_ARR_JOFF, ITER_ARR_VOFF. apply (arr_fold_nf bs step fin Hfin Hstep); unfold lenN; lia.
 Qed.
 
 Lemma ent_loop_nf {St R} bs (step : St -> list N -> je -> list N -> res (St + R)) fin :
@@ -481,7 +481,7 @@ Lemma iterate_object_entries_nf {St R} bs hdr (step : St -> list N -> je -> list
   (forall s, nf (fin s)) -> (forall s k j p, lenN p + 8 <= lenN bs -> nf (step s k j p)) ->
   nf (iterate_object_entries bs hdr step fin s).
 Proof.
-  intros Hfin Hstep. unfold iterate_object_entries.
+  intros Hfin Hstep. unfold iterate_object_entries, ITER_ENT_JOFF, ITER_ENT_KOFF, ITER_ENT_VOFF, ITER_FILL_JSTEP.
   destruct (rd_words (S (length bs)) bs 0 (hdr_len hdr) 4) as [kws|] eqn:E; [|apply nf_panic].
   destruct kws as [|kw r]; [cbn [ent_loop]; apply Hfin|].
   apply (ent_loop_nf bs step fin Hfin Hstep). pose proof (rd_words_len _ _ _ _ _ _ E) as L. rewrite lenN_cons in L. lia.
